@@ -98,6 +98,34 @@ pub fn run<C: Suite>(ctx: &mut Ctx) {
             }
         });
     }
+    // encodings grow with the threshold: round trips of the DKG packages and dealer shares for large t
+    if ctx.item("roundtrip large thresholds") {
+        ctx.guard(|ctx| {
+            let mut rng = ctx.rng("large");
+            let ts: Vec<u16> = if ctx.quick() { if slow { vec![16, 40] } else { vec![16, 33, 130] } } else { vec![16, 33, 130, 300, 1000] };
+            for t in ts {
+                let mut co = Corpus::<C>::default();
+                let id = frost_core::Identifier::<C>::try_from(1u16).unwrap();
+                if let Ok((s, pk)) = frost_core::keys::dkg::part1::<C, _>(id, t, t, &mut rng) {
+                    co.dkg_r1_secret.push(s);
+                    co.dkg_r1_package.push(pk);
+                }
+                if let Ok((s, pk)) = frost_core::keys::refresh::refresh_dkg_part1::<C, _>(id, t, t, &mut rng) {
+                    co.vss_commitment.push(pk.commitment().clone());
+                    co.dkg_r1_secret.push(s);
+                    co.dkg_r1_package.push(pk);
+                }
+                if t <= 40 || (!slow && t <= 130) {
+                    if let Ok(g) = crate::proto::dealer_group::<C>(t, t, None, None, &mut rng) {
+                        co.secret_share.push(g.shares.values().next().unwrap().clone());
+                        co.public_key_package.push(g.pkp.clone());
+                    }
+                }
+                each_wire_type!(co, roundtrip, ctx);
+                ctx.class(format!("roundtrip/large-threshold/t={t}"));
+            }
+        });
+    }
     // primitive decoders: sweeps; one item per (type) so that shards share the load
     for tix in 0..13usize {
         if !ctx.item(&format!("primitive-sweep type#{tix}")) {
